@@ -155,6 +155,15 @@ func checkC13(rd *RunData) []Violation {
 			}
 		}
 	}
+	// (1c) a running load stays joinable: the library keeps the flight registered until the loader
+	// has returned (it forgets the key afterwards, under the shard lock). White-box witness taken
+	// by the loader stub at its last instruction: if the registration is gone, a caller that misses
+	// now cannot receive this invocation's result and will load again.
+	for _, f := range order {
+		if f.l.Unreg && f.l.End != 0 {
+			vs = append(vs, Violation{"C13/flight-not-joinable/" + fam, fmt.Sprintf("loader invocation %s for key %d (seq [%d,%d], outcome %s) finished while its flight was no longer registered: callers that missed during this load cannot share its result", f.l.Token, f.l.Key, f.l.Start, f.l.End, f.l.Outcome)})
+		}
+	}
 	// (1b) no redundant load: the loader is only ever invoked for a key that is absent (or expired).
 	// White-box witness taken by the loader stub at its first instruction: if the key is resident
 	// and unexpired at that moment, some caller that had missed earlier ran the loader again
